@@ -217,7 +217,10 @@ func run(c *driver.Ctx) {
 			continue
 		}
 		st := newState(c, reg, i)
-		st.avoid = i%10 < 7 && os.Getenv("C07_NO_STEER") == "" // C07_NO_STEER=1: every program unrestricted (to validate a repair of the known findings)
+		// The known findings C07-a..e were repaired in /repo (fix: commits), so nothing needs steering around any
+		// more: every program is unrestricted. C07_STEER=1 restores the 70 % hazard-avoiding mix that was used
+		// while the defects were still in the tree.
+		st.avoid = i%10 < 7 && os.Getenv("C07_STEER") != ""
 		signal := int((i + int64(c.Shard)) % 4)
 		st.newPool(signal)
 		forceRO := i%6 == 5
